@@ -13,7 +13,8 @@ class C12(LoopCheck):
     props = {"C12"}
     flows = ("cadence", "resume")
     adaptive_N3 = ()
-    required_labels = ["c12/cadence", "c12/payload_current", "c12/file_is_latest_payload", "c12/blob_length", "c12/blob_content"]
+    required_labels = ["c12/cadence", "c12/payload_current", "c12/file_is_latest_payload", "c12/blob_length", "c12/blob_content",
+                       "c12/file_has_config", "c12/file_has_proposal", "c12/aspire_file_is_latest_payload", "c12/file_loadable"]
 
     def configs(self, tier):
         out = []
@@ -25,6 +26,12 @@ class C12(LoopCheck):
             else:
                 c["every_values"] = [1, 2, 3]
             out.append(c)
+        # the real Aspire route: config and proposal are written before sampling
+        # starts; a fault at every likelihood call, then the file is inspected and
+        # handed to Aspire.resume_from_file
+        for sched in (["fixed2"] if tier == "quick" else ["fixed2", "fixed4", "adaptive_half"]):
+            out.append({"name": f"aspire_file-{sched}", "flow": "resume_file", "schedule": sched, "n_final": False, "sampler": "MiniPCNSMC",
+                        "N": 2, "d": 1, "T": 4 if sched == "fixed4" else 2, "D": 4, "timeout_ms": 120000, "all_crash_points": True})
         out += blob.configs(tier)
         return out
 
